@@ -221,6 +221,7 @@ def custom_property(scanner: Scanner):
         scanner.start = start
         scanner.eat_while(is_keyword)
         token = tokens.CustomProperty(scanner.current())
+        token.start = start
         token.end = scanner.pos
 
         return token
